@@ -38,13 +38,18 @@ def git(cwd, *args, check=True):
 
 
 def read_wt(root, docs="docs.txt"):
-    text = open(os.path.join(root, "bumpver.toml")).read()
-    cfg = re.search(r'current_version = "([^"]*)"', text).group(1)
+    """the four texts of the working tree; a text that cannot be located any more (a mangled file) is reported as such, never raised"""
+    def find(rx, text, flags=0):
+        m = re.search(rx, text, flags)
+        return m.group(1) if m else "<not found in: %r>" % text[-80:]
+    text = open(os.path.join(root, "bumpver.toml"), errors="replace").read()
+    cfg = find(r'current_version = "([^"]*)"', text)
     second = re.search(r"^# release (\S+)$", text, re.M)
     if second and second.group(1) != cfg:
         cfg = "%s (but the second occurrence in the config file says %s)" % (cfg, second.group(1))
-    a = open(os.path.join(root, "a.txt")).read()
-    return {"cfg": cfg, "ver": re.search(r"ver=(\S+)", a).group(1), "pep": re.search(r"pep=(\S*)", a).group(1), "part": open(os.path.join(root, docs)).read().split("\n")[1]}
+    a = open(os.path.join(root, "a.txt"), errors="replace").read()
+    lines = open(os.path.join(root, docs), errors="replace").read().split("\n")
+    return {"cfg": cfg, "ver": find(r"ver=(\S+)", a), "pep": find(r"pep=(\S*)", a), "part": lines[1] if len(lines) > 1 else "<docs file has one line>"}
 
 
 def replay(job):
@@ -70,7 +75,8 @@ def replay(job):
                                                                                     (docs, [prj["partial"]])],       # a file with a PARTIAL pattern only
                                                         commit=True, tag=True, push=False, extra={"tag_scope": ([s["scope"] for s in hist if s["act"] == "update"] or ["default"])[0]})
                    + ("\n# release %s\n" % prj["v0"] if respell else ""))
-        proj.write("a.txt", "intro\nver=%s\npep=%s\n" % (prj["v0"], pep0))
+        # both occurrences on ONE line, the pattern listed second to the left of the one listed first (replacements must not depend on the order of the patterns)
+        proj.write("a.txt", "intro\npep=%s ver=%s\n" % (pep0, prj["v0"]))
         part0 = v2version.format_version(v2version.parse_version_info(prj["v0"], prj["pattern"]), prj["partial"])
         proj.write(docs, "documentation\n%s\nend\n" % part0)
         proj.write("other.txt", "tracked, carries no version pattern\n")
